@@ -12,7 +12,7 @@ _ids = itertools.count(1)
 
 
 class Node:
-    __slots__ = ('kind', 'key', 'kids', 'val', 'uid')
+    __slots__ = ('kind', 'key', 'kids', 'val', 'uid', 'tag')
 
     def __init__(self, kind, key, kids=None, val=None):
         self.kind = kind      # 'msg' 'grp' 'seg' 'fld' 'cmp' 'sub'
@@ -20,9 +20,12 @@ class Node:
         self.kids = kids if kids is not None else []
         self.val = val        # sub only
         self.uid = next(_ids)
+        self.tag = None       # e.g. {'datatype': 'HD'} for a field built with an overridden datatype
 
     def clone(self):
-        return Node(self.kind, self.key, [k.clone() for k in self.kids], self.val)
+        n = Node(self.kind, self.key, [k.clone() for k in self.kids], self.val)
+        n.tag = dict(self.tag) if self.tag else None
+        return n
 
     def reps(self, kind, key):
         return [k for k in self.kids if k.kind == kind and k.key == key]
